@@ -370,7 +370,7 @@ def run_check(pid, pc, tier, seed, repo, work, t0, replay):
                             fn_samples.append({'unit': u, 'function': f, 'verus': 'failed', 'kani_harness': hb, 'status': 'SUCCESSFUL', 'discharged_by': 'CBMC'})
                             continue
                         for v in fbr['violations']:
-                            if v not in violations:
+                            if not any(w[0] == v[0] for w in violations) and not (kres and any(w[0] == v[0] for w in kres['violations'])):
                                 violations.append(v)
                     items = []
                     for t in texts_:
